@@ -355,8 +355,28 @@ func parent(ck *Check, tier string, seed int64, dl time.Duration) {
 				gmp = "2"
 			}
 			cmd.Env = append(os.Environ(), "GOMAXPROCS="+gmp)
-			err := cmd.Run()
+			// a worker checks its deadline between cases; one that is stuck inside a single case (code under
+			// test spinning where no scheduling point or ceiling applies) is killed well after the deadline and
+			// the run is reported as not exhaustive — never as a violation, and never by waiting for ever
+			err := cmd.Start()
+			stuck := false
+			if err == nil {
+				done := make(chan error, 1)
+				go func() { done <- cmd.Wait() }()
+				select {
+				case err = <-done:
+				case <-time.After(dl + dl/2 + 3*time.Minute):
+					cmd.Process.Kill()
+					<-done
+					stuck = true
+				}
+			}
 			lf.Close()
+			if stuck {
+				b, _ := json.Marshal(Partial{Notes: []string{fmt.Sprintf("worker %d did not return %v after its internal deadline and was killed: its cases are not covered (inconclusive)", i, dl/2+3*time.Minute)}})
+				os.WriteFile(f, b, 0644)
+				err = nil
+			}
 			ch <- res{i, err, f, lg}
 		}(i)
 	}
